@@ -177,8 +177,15 @@ func (s *Solver) CheckBudget(q string, budget time.Duration) Result {
 // CheckQuick runs only the first solver with a short budget and no cache
 // (used for vacuity canaries, where only "unsat" matters).
 func (s *Solver) CheckQuick(q string, budget time.Duration) Result {
+	return s.CheckQuickR(q, 3_000_000)
+}
+
+// CheckQuickR is CheckQuick with an explicit deterministic resource limit.
+func (s *Solver) CheckQuickR(q string, rlimit int64) Result {
 	t0 := time.Now()
-	st, out, _ := runOne(context.Background(), solvers[0], q, budget, 0)
+	// the deciding budget is a deterministic resource limit (a wall-clock budget made a dead return
+	// "proved unreachable" on a fast machine and "unknown" on a loaded one); the wall limit is generous
+	st, out, _ := runOne(context.Background(), solvers[0], q, 60*time.Second, rlimit)
 	r := Result{Status: st, Solver: solvers[0].name, TimeS: time.Since(t0).Seconds()}
 	if st == "sat" {
 		r.Values = parseValues(out)
